@@ -73,6 +73,22 @@ func TestSim(t *testing.T) {
 		b, _ := json.Marshal(r)
 		fmt.Println(string(b))
 	}
+	warmUp := func(profile string) {
+		warm := *flagWarm
+		if warm < 0 {
+			warm = 0
+			if raceBuild {
+				warm = 1
+			}
+		}
+		for i := 0; i < warm; i++ {
+			// A discarded warm-up run. Found by experiment (DESIGN.md §11): the race detector
+			// does not report a producer-versus-event-loop race in the FIRST simulation of a
+			// process but does in every later one, so a replay (one run per process) would not
+			// reproduce what a worker (many runs per process) found.
+			Run(t, profileConfig(profile, uint64(900000000+i)), nil, false)
+		}
+	}
 	if *flagReplay != "" {
 		b, err := os.ReadFile(*flagReplay)
 		if err != nil {
@@ -82,6 +98,7 @@ func TestSim(t *testing.T) {
 		if err := json.Unmarshal(b, &rf); err != nil {
 			t.Fatal(err)
 		}
+		warmUp(rf.Config.Profile)
 		fmt.Printf("BEGIN %d\n", rf.Config.Seed)
 		acts := rf.Actions
 		if acts == nil {
@@ -93,6 +110,7 @@ func TestSim(t *testing.T) {
 		fmt.Printf("END %d\n", rf.Config.Seed)
 		return
 	}
+	warmUp(*flagProfile)
 	for i := 0; i < *flagCount; i++ {
 		seed := *flagSeed + uint64(i)
 		fmt.Printf("BEGIN %d\n", seed)
@@ -106,5 +124,7 @@ func TestSim(t *testing.T) {
 		fmt.Printf("END %d\n", seed)
 	}
 }
+
+var flagWarm = flag.Int("sim.warm", -1, "discarded warm-up runs before the first real one")
 
 var flagAllOracles = flag.Bool("sim.all", false, "enable every oracle regardless of the profile (triage aid)")
